@@ -52,6 +52,7 @@ class Walk:
         s.findings.append(Finding(prop, key, what, dict(info, step=s.stats['steps'], history_tail=s.history[-12:])))
     def cov(s, prop, key): s.cover.add((prop, key))
     def H(s, *sym): s.history.append(sym)
+    def last_event(s): return s.history[-1][0] if s.history else 'setup'
     # ------------------------------------------------------------ monitors
     def mon_state(s, dead_sample=4):
         live = [x for x in s.m.sess.values() if x.alive]; dead = [x for x in s.m.sess.values() if not x.alive]
@@ -63,10 +64,10 @@ class Walk:
                 if r['rv'] != 0: s.F('C11', 'live-session|rejected', 'a live session handle was rejected', h=se.h, got=r['rvname'])
                 elif r['state'] != want or r['slot'] != s.m.toks[se.ti].slot or bool(r['flags'] & 2) != se.rw:
                     s.F('C03', f'session-info|want={STATE_NAMES[want]}|got={STATE_NAMES.get(r["state"], r["state"])}', 'C_GetSessionInfo disagrees with the prescribed state', h=se.h, got=(r['state'], r['slot'], r['flags']), want=(want, s.m.toks[se.ti].slot, se.rw))
-                s.cov('C03', ('state', want)); s.cov('C11', ('session', 'alive'))
+                s.cov('C03', ('state', want)); s.cov('C11', (s.last_event(), 'session', 'alive'))
             else:
                 if r['rvname'] != INVALID_S: s.F('C11', 'dead-session|accepted', 'a closed session handle is still accepted', h=se.h, got=r['rvname'])
-                s.cov('C11', ('session', 'dead'))
+                s.cov('C11', (s.last_event(), 'session', 'dead'))
     def probe_session(s, ti):
         ls = s.m.live_sessions(ti)
         return ls[0] if ls else None
@@ -85,12 +86,12 @@ class Walk:
                 if r['rvname'] == INVALID_O: s.F('C11', f'live-handle|rejected|{okind(o)}', 'a handle that should be alive is rejected as invalid', h=h, uid=o.uid)
                 elif r['rv'] == 0 and bytes.fromhex(e.get('data', '')) != o.attrs['CKA_LABEL']: s.F('C11', 'live-handle|denotes-other-object', 'a handle reads back another object', h=h, uid=o.uid, got=e.get('data'))
                 if r['rv'] == 0 and not s.m.can_read(ps, o.private): s.F('C01', f'C_GetAttributeValue|{okind(o)}|{STATE_NAMES[s.m.state(ps)]}|read', 'private object read without user login', h=h, uid=o.uid)
-                s.cov('C11', ('object', okind(o), 'alive'))
+                s.cov('C11', (s.last_event(), 'object', okind(o), 'alive'))
             else:
                 if r['rvname'] != INVALID_O:
                     s.F('C11', f'dead-handle|accepted|{okind(o)}|{r["rvname"]}', 'a handle that should be dead is still accepted', h=h, uid=o.uid, got=r['rvname'], obj_alive=o.alive)
                     if o.private and not s.m.can_read(ps, True) and (r['rv'] == 0 or e.get('changed', 0)): s.F('C01', f'C_GetAttributeValue|{okind(o)}|{STATE_NAMES[s.m.state(ps)]}|stale-handle-read', 'private object read through a handle obtained while logged in', h=h, uid=o.uid)
-                s.cov('C11', ('object', okind(o), 'dead'))
+                s.cov('C11', (s.last_event(), 'object', okind(o), 'dead'))
     # ------------------------------------------------------------ choices
     def pick_sess(s, alive=True, ti=None):
         l = [x for x in s.m.sess.values() if x.alive == alive and (ti is None or x.ti == ti)]
